@@ -40,10 +40,16 @@ def run_case(case, rec, cid):
 
 
 def classify(case, rej, events):
-    if "rec" in case and rej["clause"] in ("count-not-n", "end-anchor-not-included", "consecutive-points-not-one-interval-apart",
-                                           "more-than-n-points", "next-not-previous-plus-interval"):
-        return recur.known_class(case["rec"])
-    return None
+    if "rec" not in case:
+        return None
+    tag = recur.known_class(case["rec"])
+    # each recorded finding manifests through particular clauses only: the end-anchored month/year series is a correct chain of
+    # additions that merely starts in the wrong place (wrong count / end not reached); float accumulation can also bend a step
+    clauses = {"bounded-duration/end-recurrence-with-month/year-interval": ("count-not-n", "end-anchor-not-included", "more-than-n-points"),
+               "bounded-recurrence-from-decimal-form-anchor-with-finer-interval":
+                   ("count-not-n", "end-anchor-not-included", "consecutive-points-not-one-interval-apart", "more-than-n-points",
+                    "next-not-previous-plus-interval")}
+    return tag if tag and rej["clause"] in clauses[tag] else None
 
 
 XMODE = [
